@@ -102,7 +102,8 @@ def diverging_sites(F, fns):
                 it = type_head(c.targs[1] if len(c.targs) > 1 else "")
                 yield dict(kind="index", msg="", ctx="[range]" if "Range" in it else "[%s]" % it, fn=f, file=c.file, line=c.line)
             elif STD_PANICKERS.match(p) and not c.macros:
-                yield dict(kind="std:" + p.rsplit("::", 1)[-1], msg="", ctx=type_head(c.targs[0]) if c.targs else "", fn=f, file=c.file, line=c.line)
+                # keyed by the file, like panics: the receiver is often a private type that may be renamed
+                yield dict(kind="std:" + p.rsplit("::", 1)[-1], msg="", ctx=owner_of(F, f), fn=f, file=c.file, line=c.line)
         for bi, b in enumerate(f.mir["blocks"]):
             t = b["term"]
             if t["k"] == "Assert" and t["msg"] == "BoundsCheck" and not t.get("macros"):
@@ -112,13 +113,13 @@ def diverging_sites(F, fns):
 
 
 def owner_of(F, f):
-    """source file of the enclosing function, relative to the crate's src directory (never the function or type
-    name: moving a site between a method and a free function of the same file is not a new site)"""
+    """crate of the enclosing function (never the function, type or file name: moving a site between a method and a
+    free function, or into another module file, is not a new site)"""
     r = F.fns.get(f.root) if f.root else f
     r = r or f
     fl = r.file or ""
-    m = re.search(r"packages/([\w-]+)/src/(.*)$", fl)
-    return "%s:%s" % (m.group(1), m.group(2)) if m else fl
+    m = re.search(r"packages/([\w-]+)/src/", fl)
+    return m.group(1) if m else fl
 
 
 def site_key(s):
@@ -636,6 +637,28 @@ def run(cx, rep):
 
     # INV-ANYOF-NONEMPTY (census entry `panic|empty anyOf is not allowed`): AnyOf(empty set) is never constructed
     anyof_nonempty(cx, rep, F)
+
+    # ---------------------------------------------------------------- C04.5
+    # "every successful result is a JavaScript module that loads against the client runtime": decided by the
+    # writer/reader rules of C01 (every emitted constructor exists with that arity; regex literals are well-formed
+    # because every template part goes through the escape function, which covers the delimiter and all syntax chars)
+    rep.rule("C04.5", "a successful result loads against the client runtime (C01.1 constructor table, C01.3 regex escaping)")
+    sub = Report.__new__(Report)
+    sub.pid = "sub"; sub.tier = rep.tier; sub.level = "other"; sub.t0 = 0
+    sub.rules = {}; sub.violations = []; sub.samples = []; sub.analysed = {}; sub.assumptions = []; sub.trusted = []
+    sub.explanation = ""; sub.notes = []; sub.extra = {}; sub.known = {}; sub.known_hit = set()
+    try:
+        importlib.import_module("rules.c01").run(cx, sub)
+        _kf = _json.load(open(_os.path.join(cx.verif, "known_findings.json")))
+        _known_elsewhere = {e["key"] for e in _kf.get("findings", [])}
+        for rid_ in ("C01.1", "C01.3"):
+            r = sub.rules.get(rid_, {"obligations": 0, "discharged": 0})
+            bad = [v for v in sub.violations if v["rule"] == rid_ and v["key"] not in _known_elsewhere]
+            rep.ob("C04.5", rid_, not bad and r["obligations"] > 0,
+                   "%s is violated: the emitted module does not load (unknown constructor / wrong arity / malformed regular-expression literal): %s" % (rid_, "; ".join(v["msg"][:200] for v in bad[:2])),
+                   bad[0]["loc"] if bad else None, sample={"rule": rid_, "obligations": r["obligations"], "discharged": r["discharged"]})
+    except Exception as e:
+        rep.ob("C04.5", "C01-rules", False, "could not evaluate the C01 writer/reader rules inside C04: %s" % e)
 
     # ---------------------------------------------------------------- C04.2
     rep.rule("C04.2", "no match arm over an input-shaped enum (swc AST / binding tables) is a panic")
